@@ -598,6 +598,27 @@ pub fn s_first() -> Vec<WCfg> {
     out
 }
 
+/// S-set/cancel: three parts fund the invoice; the caller of one held handler may go away (its future is dropped)
+/// at any moment. The remaining parts must still all receive the set's resolution (C07).
+pub fn s_set_cancel() -> Vec<WCfg> {
+    let mut out = Vec::new();
+    for fails in [false, true] {
+        let mut c = WCfg::base(&format!("S-set/cancel/3parts{}", if fails { "/payfails" } else { "" }));
+        let inv = c.add_invoice(&InvoiceSpec::fixed(1, 1_000_000));
+        for (i, a) in [300_000u64, 300_000, 405_000].iter().enumerate() {
+            add_htlc_full(&mut c, &format!("a{}", i + 1), inv, *a, Some(1_005_000), None);
+        }
+        c.max_parts = 1;
+        c.max_crashes = 0;
+        c.max_cancels = 1;
+        c.max_parks = 0;
+        c.max_stalls = 0;
+        c.default_part_fails = fails;
+        out.push(c);
+    }
+    out
+}
+
 /// S-many: up to 4 HTLCs per hash delivered before / while / after paying (C06).
 pub fn s_many() -> Vec<WCfg> {
     let mut out = Vec::new();
